@@ -23,7 +23,7 @@ from ..core import R
 LEVEL = "model_checking"
 warnings.simplefilter("ignore")
 
-SEEDS = {"s1": 4711, "s2": 991177}
+SEEDS = {"s1": 4711, "s2": 991177, "s0": 0}  # (s0: the smallest legal seed, used by the formula group only)
 MODE_NO = 16
 
 
@@ -425,7 +425,8 @@ def case_formula(case):
     near = target(cfg, "A")
     far = cp[:, :3] + 60.0 * ref["len_scale"]
     pos = np.concatenate([near, cp[:, :2], far], axis=1)
-    out = np.array(csrf(pos, seed=SEEDS[ref["seed"]]), dtype=float)
+    # seed given with the request, or only at construction (make_csrf passes it to the constructor)
+    out = np.array(csrf(pos, seed=SEEDS[ref["seed"]]) if case.get("call_seed", True) else csrf(pos), dtype=float)
     rk, kv = np.array(csrf["raw_krige"]), np.array(csrf.krige["krige_var"])
     m = make_model(ref)
     usrf = gs.SRF(copy.deepcopy(m), mean=0.0, seed=SEEDS[ref["seed"]], mode_no=MODE_NO)
@@ -475,7 +476,10 @@ def run(chk):
                     for seed in ("s1", "s2"):
                         for ls in (2.0, 0.8):
                             fc.append({"cfg": {"variant": variant, "cls": cls, "dim": dim, "nugget": nug}, "seed": seed, "len_scale": ls})
-    chk.run("formula", case_formula, fc, rule="variant x model x dim x nugget (0, 0.2, 0.7 with exact=True) x seed x length scale on freshly built objects: conditioning formula including the nugget part, data at the conditioning points, far field under simple kriging")
+                    for seed in ("s0", "s1"):
+                        fc.append({"cfg": {"variant": variant, "cls": cls, "dim": dim, "nugget": nug}, "seed": seed, "len_scale": 2.0, "call_seed": False})
+                    fc.append({"cfg": {"variant": variant, "cls": cls, "dim": dim, "nugget": nug}, "seed": "s0", "len_scale": 0.8})
+    chk.run("formula", case_formula, fc, rule="variant x model x dim x nugget (0, 0.2, 0.7 with exact=True) x seed (incl. 0; given with the request or only at construction) x length scale on freshly built objects: conditioning formula including the nugget part, data at the conditioning points, far field under simple kriging")
     eops = [{"pos": p, "ext": e, "seed": sd} for p in ("A", "B") for e in ("f1", "f2") for sd in ("s1", "s2", None)]
     ehist = [list(h) for L in (1, 2, 3 if chk.tier != "quick" else 2) for h in itertools.product(eops, repeat=L)]
     seen, eh = set(), []
